@@ -79,6 +79,8 @@ def typed_models(draw, max_nodes=10, cmds=None, with_meta=True, clean=False):
     nodes = []
     for i, col in enumerate(sorted(table["cols"])):
         nodes.append({"name": "In%d" % i, "cmd": "EEMSRead", "col": col})
+        if draw(st.booleans()):
+            nodes[-1]["arg_perm"] = draw(st.lists(st.integers(0, 9), min_size=1, max_size=5))
     n_extra = min(max_nodes, draw(st.sampled_from([1, 2, 3, 4, 5, 6, 7, 8, 10, 12])))
     pool_vals = [x for c in table["cols"].values() for x, m in zip(c["data"], c["mask"] or [0] * table["rows"]) if not m][:6]
     for k in range(n_extra):
@@ -106,6 +108,8 @@ def typed_models(draw, max_nodes=10, cmds=None, with_meta=True, clean=False):
         if clean:
             params = sanitize_params(cmd, params)
         node = {"name": "N%d" % k, "cmd": cmd, "inputs": inputs, "params": params}
+        if draw(st.booleans()):
+            node["arg_perm"] = draw(st.lists(st.integers(0, 9), min_size=1, max_size=7))
         if with_meta and draw(st.integers(0, 3)) == 0:
             node["meta"] = {"DisplayName": "node %d" % k, "Color": draw(st.sampled_from(["Blue", "dark red", "x"]))}
             node["meta_pos"] = draw(st.integers(0, 12))
@@ -160,7 +164,7 @@ def node_arguments(model, node, csv_name="input.csv"):
         if spec.get("missing") is not None:
             args.append(("MissingVal", fmt_number(spec["missing"])))
         args.append(("DataType", '"Integer"' if spec["dtype"] == "int64" else '"Float"'))
-        return args
+        return permute_args(args, node.get("arg_perm"))
     cmd = node["cmd"]
     names = {}
     from .. import arr as A
@@ -178,7 +182,15 @@ def node_arguments(model, node, csv_name="input.csv"):
         # Metadata may stand anywhere among the arguments
         args.insert(node.get("meta_pos", len(args)) % (len(args) + 1),
                     ("Metadata", "[" + ", ".join('"%s": "%s"' % kv for kv in node["meta"].items()) + "]"))
-    return args
+    return permute_args(args, node.get("arg_perm"))
+
+
+def permute_args(args, perm):
+    """Arguments may be written in any order; `perm` is a list of sort keys drawn by the generator."""
+    if not perm:
+        return args
+    keyed = sorted(range(len(args)), key=lambda i: (perm[i % len(perm)], i))
+    return [args[i] for i in keyed]
 
 
 def source(model, order=None, extra_lines=(), csv_name="input.csv", with_meta=True):
